@@ -120,7 +120,7 @@ class Built:
     def __init__(self):
         self.text = ""; self.ranges = []; self.notes = []; self.real_fns = []; self.ghost_fns = []
         self.stubs = []; self.clauses = 0; self.rewrites = {}; self.selfcheck = True; self.loops = 0
-        self.dropped = []; self.changed = set(); self.item_props = {}
+        self.dropped = []; self.changed = set(); self.item_props = {}; self.dropped_idx = {}; self.pinned = None
 
 def _emit(b, chunks, text, label, real, extra=None):
     start = sum(c.count("\n") for c in chunks) + 1
@@ -133,7 +133,19 @@ def _weave_real(b, unit, tmpl_item, src_item, label, rules, degrade=False):
     cur = RW.apply(src_item.toks, rules, b.rewrites)
     cur = RW.apply_text(cur, b.template.meta.get("rewrite_text", []), b.rewrites)
     # the template skeleton is stored post-rewrite; apply the same (idempotent) rules to be safe
-    out, notes = W.weave(tmpl_item.toks, cur, label, degrade)
+    pinned = getattr(b, "pinned", None) or {}
+    dropped = []
+    if label in pinned:
+        # pinned replay: the template's own (last proved) body with exactly the annotations dropped that could not be
+        # placed on the changed source - tells whether those annotations were needed at all
+        cur = [Tok(t.text, t.ws, t.kind, t.line) for t in W.skeleton(tmpl_item.toks)]
+        out, notes = W.weave(tmpl_item.toks, cur, label, False, force_drop=set(pinned[label]), dropped_out=dropped)
+        b.notes += ["PINNED-REPLAY " + n for n in notes]
+        b.selfcheck = b.selfcheck      # the strip check is meaningless here: this file is never reported as the code that runs
+        ncl = sum(1 for (p, k, r) in W.runs(tmpl_item.toks) if k in ("clause", "lclause"))
+        return out, ncl
+    out, notes = W.weave(tmpl_item.toks, cur, label, degrade, dropped_out=dropped)
+    if dropped: b.dropped_idx[label] = dropped
     if any(n.startswith('DROPPED') or 'differs' in n for n in notes): b.changed.add(label)
     b.notes += notes
     # self-check: stripping the woven text gives back exactly the rewritten current tokens
@@ -146,10 +158,11 @@ def _weave_real(b, unit, tmpl_item, src_item, label, rules, degrade=False):
     b.clauses += ncl
     return out, ncl
 
-def build(unit, strict=True, mutate=None, pid=None, degrade=(), extras=()):
-    """returns Built. `mutate` (optional) is a function(text)->text applied to source files (canaries)."""
+def build(unit, strict=True, mutate=None, pid=None, degrade=(), extras=(), pinned=None):
+    """returns Built. `mutate` (optional) is a function(text)->text applied to source files (canaries).
+    pinned = {fn label: [annotation indices]}: emit these functions from the template's own body with those annotations dropped."""
     t = Template(unit, strict=strict, pid=pid)
-    b = Built(); b.template = t
+    b = Built(); b.template = t; b.pinned = pinned
     chunks = ["// GENERATED by /verif/vf from /repo working tree + units/%s.rs -- do not edit\nuse vstd::prelude::*;\nverus! {\nglobal size_of usize == 8;\n" % unit + STD_PRELUDE]
     b.ranges.append({"start": 1, "end": 5 + STD_PRELUDE.count("\n"), "label": "<header>", "real": False})
     rules = ["cfg", "vis", "static", "attr", "constfold", "cratepath", "asserteq"] + t.meta["rewrite"]
